@@ -67,6 +67,12 @@ from fortls.version import __version__
 # Global regexes
 # TODO: I think this can be replaced by fortls.regex_patterns type & class
 TYPE_DEF_REGEX = re.compile(r"[ ]*(TYPE|CLASS)[ ]*\([a-z0-9_ ]*$", re.I)
+# USE statement up to the cursor, which is on the name following a `=>`
+USE_RENAME_REGEX = re.compile(
+    r"[ ]*USE[ ]*(?:,[ ]*(?:NON_)?INTRINSIC[ ]*)?(?:::)?[ ]*([a-z_][\w$]*)[ ]*,"
+    r"(?:.*,)?[^,]*=>[ ]*[\w$]*$",
+    re.I,
+)
 
 
 class LangServer:
@@ -802,6 +808,10 @@ class LangServer:
                 )
             ):
                 curr_scope = curr_scope.parent
+            # In `USE mod, local => remote` the remote name belongs to the module
+            use_match = USE_RENAME_REGEX.match(line_prefix)
+            if use_match and use_match.group(1).lower() in self.obj_tree:
+                curr_scope = self.obj_tree[use_match.group(1).lower()][0]
             var_obj = find_in_scope(
                 curr_scope, def_name, self.obj_tree, var_line_number=def_line + 1
             )
